@@ -16,6 +16,8 @@ def _or(a,b):
     return bool(a) or bool(b)
 def _not(a): return SB(z3.Not(a.e)) if isinstance(a,SB) else (not a)
 def _ite(c,a,b):
+    if isinstance(c,SB) and (isinstance(a,SB) or isinstance(b,SB) or isinstance(a,bool)):
+        ea = a.e if isinstance(a,SB) else z3.BoolVal(a); eb = b.e if isinstance(b,SB) else z3.BoolVal(b); return SB(z3.If(c.e,ea,eb))
     if isinstance(c,SB):
         A = a if isinstance(a,SR) else SR(a); B = b if isinstance(b,SR) else SR(b); return SR(z3.If(c.e,A.e,B.e))
     return a if c else b
@@ -32,11 +34,17 @@ class Arr:
     def __getitem__(s,i):
         if isinstance(i,slice): return Arr(s.items[i], s.dtype)
         if isinstance(i,Arr):
-            if i.dtype==bool_: return Arr([v for v,m in zip(s.items,i.items) if _conc(m)], s.dtype)
+            if i.dtype==bool_:
+                if builtins.any(isinstance(m,SB) for m in i.items): return MaskedView(s.items, i.items, s.dtype)
+                return Arr([v for v,m in zip(s.items,i.items) if _conc(m)], s.dtype)
             return Arr([s.items[j] for j in i.items], s.dtype)
         return s.items[i]
     def __setitem__(s,i,v):
-        if isinstance(i,Arr) and i.dtype==bool_:
+        if isinstance(i,Arr) and i.dtype==bool_ and (isinstance(v,MaskedView) or builtins.any(isinstance(m,SB) for m in i.items)):
+            vals = v.items if isinstance(v,(MaskedView,)) else [v]*len(s.items)
+            assert not isinstance(v,Arr) or isinstance(v,MaskedView)
+            for k,m in enumerate(i.items): s.items[k] = _ite(m, vals[k], s.items[k]) if isinstance(m,SB) else (vals[k] if m else s.items[k])
+        elif isinstance(i,Arr) and i.dtype==bool_:
             vs = iter(v.items) if isinstance(v,Arr) else None
             for k,m in enumerate(i.items):
                 if _conc(m): s.items[k] = next(vs) if vs else v
@@ -65,6 +73,13 @@ class Arr:
         for x in s.items: r=_or(r,x)
         return r if not isinstance(r,SB) else bool(r)
     def dot(a,b): return dot(a,b)
+class MaskedView(Arr):
+    '''x[mask] with a symbolic mask: full-length items + mask; only element-wise use is supported'''
+    def __init__(s, items, mask, dtype=float64): Arr.__init__(s, items, dtype); s.mask=list(mask)
+    def _bin(a,b,f,dt=None):
+        bs = b.items if isinstance(b,Arr) else [b]*len(a.items)
+        return MaskedView([f(x,y) for x,y in zip(a.items,bs)], a.mask, dt or a.dtype)
+    shape=property(lambda s: (_ for _ in ()).throw(NotImplementedError('length of symbolic selection')))
 def _conc(m): return bool(m)      # masks are concretised by forking (probe only)
 ndarray=Arr
 def copy(a): return a.copy()
